@@ -125,6 +125,8 @@ def step? : Nat → List String → Option (Step × List String)
     | "debug_inspect" :: r => some (.debugInspect, r)
     | "debug_count" :: r => some (.debugCount, r)
     | "debug_sample" :: n :: r => (parseNat? n).map (fun n => (.debugSample n, r))
+    | "custom_op" :: n :: r => (parseInt? n).map (fun n => (.customOp n, r))
+    | "map_side_map" :: r => some (.mapSideMap, r)
     | "join" :: k :: "[" :: r => do
         let k ← kind? k
         let (src, r) ← rows? r
